@@ -11,6 +11,7 @@ import (
 	"os/exec"
 	"path/filepath"
 	"runtime"
+	"runtime/debug"
 	"runtime/pprof"
 	"strconv"
 	"strings"
@@ -208,7 +209,9 @@ func srvChildMain(args []string) int {
 				b, _ := json.Marshal(srvStats{Goroutines: runtime.NumGoroutine(), HeapAlloc: ms.HeapAlloc, Sys: ms.Sys, CPUMillis: cpu, Panics: len(s.Panics())})
 				fmt.Fprintln(c, string(b))
 			case "gc":
-				runtime.GC()
+				// collect and hand the freed memory back to the operating system, so that RSS read afterwards is
+				// what the process really holds (live heap, stacks, memory of C libraries)
+				debug.FreeOSMemory()
 				fmt.Fprintln(c, "ok")
 			case "stacks":
 				var sb strings.Builder
